@@ -53,7 +53,7 @@ class RowanStub:
     def rotate(q, v):
         q = [float(x) for x in _np.asarray(q).ravel()]
         if q == [1.0, 0.0, 0.0, 0.0]:
-            return v
+            return sarr(v)
         raise core.Abort("rowan.rotate with a non-identity quaternion")
 
     @staticmethod
@@ -360,9 +360,74 @@ ellipe, ellipeinc, ellipkinc = _ellipe, _ellipeinc, _ellipkinc
 
 
 class MiniballStub:
+    """miniball.get_bounding_ball by its contract: the smallest ball containing the points.
+
+    Only for concrete points (exact rational arithmetic, brute force over support sets of 2, 3, 4
+    points).  Returns (centre, r^2) like the library."""
+
     @staticmethod
     def get_bounding_ball(points):
+        import itertools
+        from fractions import Fraction
+
         f = getattr(core.CTX, "miniball", None)
-        if f is None:
-            raise core.Abort("miniball reached without a harness-provided ball")
-        return f(points)
+        if f is not None:
+            return f(points)
+        P = []
+        for row in sarr(points, copy=False).view(_np.ndarray):
+            r = []
+            for v in row:
+                v = Sym._co(core.force(v))
+                if not v.is_const():
+                    raise core.Abort("miniball reached with symbolic points (only concrete point sets are modelled)")
+                r.append(v.as_fraction())
+            P.append(r)
+        d = len(P[0])
+
+        def sub(a, b):
+            return [x - y for x, y in zip(a, b)]
+
+        def dot(a, b):
+            return sum(x * y for x, y in zip(a, b))
+
+        def circum(S):
+            # centre c = S0 + sum_k l_k (S_k - S0) with |c - S_k| equal: solve Gram system
+            base = S[0]
+            E = [sub(p, base) for p in S[1:]]
+            m = len(E)
+            G = [[dot(E[i], E[j]) for j in range(m)] for i in range(m)]
+            rhs = [dot(E[i], E[i]) / 2 for i in range(m)]
+            # Gaussian elimination (exact)
+            A = [G[i][:] + [rhs[i]] for i in range(m)]
+            for c in range(m):
+                piv = next((r for r in range(c, m) if A[r][c] != 0), None)
+                if piv is None:
+                    return None
+                A[c], A[piv] = A[piv], A[c]
+                for r in range(m):
+                    if r != c and A[r][c] != 0:
+                        fct = A[r][c] / A[c][c]
+                        A[r] = [x - fct * y for x, y in zip(A[r], A[c])]
+            lam = [A[i][m] / A[i][i] for i in range(m)]
+            cen = base[:]
+            for l, e in zip(lam, E):
+                cen = [x + l * y for x, y in zip(cen, e)]
+            return cen
+
+        best = None
+        n = len(P)
+        for k in (2, 3, 4):
+            if k > min(n, d + 1):
+                break
+            for idx in itertools.combinations(range(n), k):
+                cen = circum([P[i] for i in idx])
+                if cen is None:
+                    continue
+                r2 = dot(sub(P[idx[0]], cen), sub(P[idx[0]], cen))
+                if best is not None and r2 >= best[1]:
+                    continue
+                if all(dot(sub(p, cen), sub(p, cen)) <= r2 for p in P):
+                    best = (cen, r2)
+        if best is None:
+            raise core.Abort("no bounding ball found")
+        return sarr([K(x) for x in best[0]]), K(best[1])
